@@ -178,8 +178,8 @@ class time_exceeded (packet_base):
 
         if dlen >= 28:
             # xxx We're assuming this is IPv4!
-            from . import ipv4
-            self.next = ipv4.ipv4(raw=raw[self.MIN_LEN:],prev=self)
+            from .ipv4 import ipv4
+            self.next = ipv4(raw=raw[self.MIN_LEN:],prev=self)
         else:
             self.next = raw[self.MIN_LEN:]
 
@@ -243,8 +243,8 @@ class unreach(packet_base):
 
         if dlen >= 28:
             # xxx We're assuming this is IPv4!
-            from . import ipv4
-            self.next = ipv4.ipv4(raw=raw[unreach.MIN_LEN:],prev=self)
+            from .ipv4 import ipv4
+            self.next = ipv4(raw=raw[unreach.MIN_LEN:],prev=self)
         else:
             self.next = raw[unreach.MIN_LEN:]
 
